@@ -7,6 +7,7 @@ import (
 	"fmt"
 	"os"
 	"reflect"
+	"strconv"
 	"strings"
 	"testing"
 	"time"
@@ -500,6 +501,120 @@ func (g *c14Gen) next() ([]byte, string) {
 }
 
 // judge turns a verdict into a violation message ("" = fine).
+// c14Scaled: families of messages whose size is proportional to a scale k and in which something small is
+// re-used or declared k times. Decoding the message of scale 2k may cost about twice what scale k costs; a
+// factor of four is the signature of cost that follows (re-uses x size), not the input.
+var c14Scaled = []struct {
+	name string
+	gen  func(k int) []byte
+}{
+	{"k references to a 2k-element list inside a typed [[int list", func(k int) []byte {
+		b := append([]byte{'V', 5, '[', '[', 'i', 'n', 't'}, encInt(int32(k+1))...)
+		b = append(append(b, 0x58), encInt(int32(2*k))...)
+		for i := 0; i < 2*k; i++ {
+			b = append(b, 0x90)
+		}
+		for i := 0; i < k; i++ {
+			b = append(b, 0x51, 0x91)
+		}
+		return b
+	}},
+	{"2k references to a 2k-element list inside an untyped list", func(k int) []byte {
+		b := append([]byte{0x57, 0x58}, encInt(int32(2*k))...)
+		for i := 0; i < 2*k; i++ {
+			b = append(b, 0x90)
+		}
+		for i := 0; i < 2*k; i++ {
+			b = append(b, 0x51, 0x91)
+		}
+		return append(b, 'Z')
+	}},
+	{"2k map values referring to one map of k entries", func(k int) []byte {
+		b := []byte{'H', 0x01, 'a', 'H'}
+		for i := 0; i < k; i++ {
+			b = append(append(b, encInt(int32(i))...), 0x90)
+		}
+		b = append(b, 'Z')
+		for i := 0; i < 2*k; i++ {
+			b = append(append(b, encInt(int32(100000+i))...), 0x51, 0x91)
+		}
+		return append(b, 'Z')
+	}},
+	{"k objects whose []int32 field refers to one list of k elements", func(k int) []byte {
+		b := append([]byte{0x58}, encInt(int32(k+1))...)
+		b = append(append(b, 0x58), encInt(int32(k))...)
+		for i := 0; i < k; i++ {
+			b = append(b, 0x90)
+		}
+		b = append(b, "C\x05SlI32\x91\x01l"...)
+		for i := 0; i < k; i++ {
+			b = append(b, 0x60, 0x51, 0x91)
+		}
+		return b
+	}},
+	{"k/2 typed maps registered as a struct whose field refers to one list of 2k elements", func(k int) []byte {
+		b := append([]byte{0x57, 0x58}, encInt(int32(2*k))...)
+		for i := 0; i < 2*k; i++ {
+			b = append(b, 0x90)
+		}
+		for i := 0; i < k/2; i++ {
+			b = append(b, 'M', 0x05, 'S', 'l', 'I', '3', '2', 0x01, 'l', 0x51, 0x91, 'Z')
+		}
+		return append(b, 'Z')
+	}},
+	{"k references, in a typed list of maps, to the enclosing map of k/2 entries", func(k int) []byte {
+		b := []byte{0x7a, 'H'}
+		for i := 0; i < k/2; i++ {
+			b = append(b, 3, byte('a'+i%26), byte('a'+i/26%26), byte('a'+i/676%26), 0xe0)
+		}
+		b = append(append(b, 3, 'l', 's', 't', 'V', 2, '[', 'm'), encInt(int32(k))...)
+		for i := 0; i < k; i++ {
+			b = append(b, 0x51, 0x91)
+		}
+		return append(b, 'Z', 0x90)
+	}},
+	{"a class definition of k/4 wire fields and k instances opened inside one another", func(k int) []byte {
+		b := append([]byte{'C', 0x04, 'N', 'o', 'd', 'e'}, encInt(int32(k/4))...)
+		b = append(b, 0x01, 'a')
+		for i := 1; i < k/4; i++ {
+			b = append(b, 0x03, 'u', byte('a'+i%26), byte('a'+i/26%26))
+		}
+		for i := 0; i < k; i++ {
+			b = append(b, 0x60)
+		}
+		return b
+	}},
+	{"one unknown field name of k characters and k instances", func(k int) []byte {
+		b := append([]byte{'C', 0x05, 'I', 'n', 'n', 'e', 'r', 0x91, 'S'}, byte(k>>8), byte(k))
+		for i := 0; i < k; i++ {
+			b = append(b, 'x')
+		}
+		b = append(append(b, 0x58), encInt(int32(k))...)
+		for i := 0; i < k; i++ {
+			b = append(b, 0x60, 0x90)
+		}
+		return b
+	}},
+	{"a list of k lists that each hold one reference to the first list of k elements", func(k int) []byte {
+		b := append([]byte{0x58}, encInt(int32(k+1))...)
+		b = append(append(b, 0x58), encInt(int32(k))...)
+		for i := 0; i < k; i++ {
+			b = append(b, 0x90)
+		}
+		for i := 0; i < k; i++ {
+			b = append(b, 0x79, 0x51, 0x91)
+		}
+		return b
+	}},
+	{"k nested lists each declaring 1024 elements", func(k int) []byte {
+		var b []byte
+		for i := 0; i < k; i++ {
+			b = append(b, 0x58, 0xcc, 0x00)
+		}
+		return b
+	}},
+}
+
 func judge(j job, v verdict) string {
 	if v.status == 2 {
 		return "panic: " + v.msg
@@ -530,10 +645,51 @@ func TestC14(t *testing.T) {
 		if msg := judge(j, v); msg != "" {
 			t.Fatalf("replay: %s", msg)
 		}
+		if origin, _ := rc["origin"].(string); strings.HasPrefix(origin, "scaled:") {
+			// a growth failure: decode the same family at half the scale again and compare
+			parts := strings.SplitN(origin, ":", 3)
+			k, _ := strconv.Atoi(parts[1])
+			for _, fam := range c14Scaled {
+				if len(parts) == 3 && fam.name == parts[2] {
+					vs, ok := runAlone(job{entry: int(e), tm: int(tm), payload: fam.gen(k / 2)}, 60*time.Second)
+					if ok && v.alloc > 64<<20 && v.alloc > 3*vs.alloc+(vs.alloc>>2) {
+						t.Fatalf("replay: doubling the input multiplied the memory allocated by %.1f (%d -> %d octets)", float64(v.alloc)/float64(vs.alloc+1), vs.alloc, v.alloc)
+					}
+				}
+			}
+		}
 		if v.nanos > c14SlowNanos {
 			t.Fatalf("replay: %v for %d octets", time.Duration(v.nanos), len(in))
 		}
 		return
+	}
+	// ---- growth: every re-use family at scale k and 2k; about twice the cost is fine, four times is not
+	if shard, _ := shardInfo(); shard == 0 {
+		k0 := rec.EnvInt("VERIF_C14_SCALE", 4000)
+		for fi, fam := range c14Scaled {
+			for _, entry := range []int{0, 5} {
+				for tmk := 0; tmk < 2; tmk++ {
+					small := job{entry: entry, tm: tmk, payload: fam.gen(k0), origin: fmt.Sprintf("scaled:%d:%s", k0, fam.name)}
+					big := job{entry: entry, tm: tmk, payload: fam.gen(2 * k0), origin: fmt.Sprintf("scaled:%d:%s", 2*k0, fam.name)}
+					vs, ok1 := runAlone(small, 60*time.Second)
+					vb, ok2 := runAlone(big, 120*time.Second)
+					if !ok1 || !ok2 {
+						c14Fail(t, big, "the decoder does not return (or dies) on this input")
+						continue
+					}
+					if msg := judge(big, vb); msg != "" {
+						c14Fail(t, big, msg)
+					}
+					if vb.alloc > 64<<20 && vb.alloc > 3*vs.alloc+(vs.alloc>>2) {
+						c14Fail(t, big, fmt.Sprintf("doubling the input (%d -> %d octets, %s) multiplied the memory allocated by %.1f (%d -> %d octets): cost follows re-use x size, not the size of the input",
+							len(small.payload), len(big.payload), fam.name, float64(vb.alloc)/float64(vs.alloc+1), vs.alloc, vb.alloc))
+					}
+					r.EvalN(2)
+					r.NonTrivial(av.Hash(fmt.Sprint("scaled", fi, entry, tmk)))
+				}
+			}
+		}
+		r.Label("growth: cost at scale 2k vs scale k")
 	}
 	// ---- corpus of valid messages (Go encoder over the zoo) via rapid
 	g := &c14Gen{rng: seedFor("C14")}
